@@ -196,7 +196,11 @@ func (it *Interp) Eval(ast *canon.Node, env *Env) (*canon.Node, *Err) {
 	}
 	if ast.L[0].K == canon.Sym {
 		if f, ok := specials[ast.L[0].S]; ok {
-			return f(it, ast, env)
+			// cond, and, or, -> and ->> are library macros, modelled natively: like every macro they are bindings of
+			// the outermost scope, and a local (or a later global definition) of that name wins over them
+			if _, bound := env.Get(ast.L[0].S); !(bound && libMacroNames[ast.L[0].S]) {
+				return f(it, ast, env)
+			}
 		}
 	}
 	// application: head first, then arguments left to right, exactly once
@@ -298,6 +302,9 @@ func (it *Interp) Macroexpand(ast *canon.Node, env *Env) (*canon.Node, *Err) {
 }
 
 type special func(it *Interp, ast *canon.Node, env *Env) (*canon.Node, *Err)
+
+// libMacroNames: the specials that stand for library macros (shadowable), as opposed to the special forms proper.
+var libMacroNames = map[string]bool{"cond": true, "and": true, "or": true, "->": true, "->>": true}
 
 var specials map[string]special
 
